@@ -290,6 +290,13 @@ func (g *gstate) transfer(t *gtok) Op {
 
 func (g *gstate) setparams() Op {
 	p := randParams(g.r)
+	if g.r.Chance(1, 12) { // the 195-bit bound of Params.Validate: 2^195-1 accepted, 2^195 refused
+		b := new(big.Int).Lsh(big.NewInt(1), 195)
+		if g.r.Chance(1, 2) {
+			b.Sub(b, big.NewInt(1))
+		}
+		p.Base = b.String()
+	}
 	a := accGov
 	if g.r.Chance(1, 5) {
 		a = g.r.Intn(g.n)
@@ -656,6 +663,9 @@ func genERC20(r *lib.Rand, tier string) History {
 			hd, b := t.holder(r)
 			amt := pick(r, big.NewInt(1), big.NewInt(3), r.BigRange(big.NewInt(1), b), r.BigRange(big.NewInt(1), b), new(big.Int).Set(b),
 				r.BigRange(big.NewInt(1), pow10(t.scale)))
+			if r.Chance(1, 12) { // offers the kernel cannot hold in a LegacyDec (panic) or that merely exceed the balance
+				amt = new(big.Int).Lsh(big.NewInt(1), uint(pick(r, 190, 200, 236, 250, 255)))
+			}
 			if amt.Sign() <= 0 {
 				amt = big.NewInt(1)
 			}
